@@ -160,3 +160,21 @@ def test_checker_on_hand_cases():
     assert c11.compare((("c", "z"), (2, 1), np.array([[1.0], [2.0]])), exp)[0] == "inputs"
     assert c11.compare(((), (), np.array(-np.inf)), R.NA([], np.array(-np.inf)))[0] == "ok"
     assert c11.compare(((), (), np.array(-1e300)), R.NA([], np.array(-np.inf)))[0] == "value"
+
+
+def test_simultaneous_renaming_of_own_inputs():
+    # X[a,c] = [[1,2],[3,4]] used as X(a='c', c='a'): the occurrence's (c=i, a=j) reads X[i,j];  W[a] = (10, 100)
+    lv = {
+        "1": {"inputs": [["a", 2], ["c", 2]], "zeros": [], "data": [[1.0, 2.0], [3.0, 4.0]]},
+        "2": {"inputs": [["a", 2]], "zeros": [], "data": [10.0, 100.0]},
+    }
+    e = ["sum", ["mul", [["mren", 1, [["a", "c"], ["c", "a"]]], ["leaf", 2]]], ["a", "c"]]
+    assert R.forward(e, lv, 0).arr.tolist() == (1 + 3) * 10.0 + (2 + 4) * 100.0
+    # d/dX[i,j] = W[j]  (the leaf's second axis c was renamed to a)
+    d = R.expected_adjoint(e, lv, 0, 1, "total")
+    assert np.array_equal(R.expand(d, ("a", "c")), np.array([[10.0, 100.0], [10.0, 100.0]]))
+    assert R.expected_adjoint(e, lv, 0, 2, "total").arr.tolist() == [4.0, 6.0]
+    # a shift a->c, c->z with c left free: root[c] = sum_z X[c, z] -> derivative of the total is 1 everywhere
+    e = ["sum", ["mren", 1, [["a", "c"], ["c", "z"]]], ["z"]]
+    assert R.forward(e, lv, 0).arr.tolist() == [3.0, 7.0]
+    assert np.array_equal(R.expected_adjoint(e, lv, 0, 1, "total").arr, np.ones((2, 2)))
